@@ -1,9 +1,29 @@
 // C05 - post-action delay. See DESIGN.md section 6.
 #include "engine_common.h"
+#include "kill_common.h"
 
 namespace sim {
 
+Json::Value genHookKillPlan(Rng& rng);
+KillRun runHookKillPlan();
+
 static Json::Value genC05(Rng& rng) {
+  if (rng.chance(0.25)) {
+    // real kill plugins (own post_action_delay, prekill-hook waits, failing
+    // kills) instead of scripted actions
+    Json::Value plan = genHookKillPlan(rng);
+    plan["mode"] = "kill";
+    for (auto& rs : plan["config"]["rulesets"]) {
+      rs["post_action_delay"] = rng.pick<std::string>({"0", "1", "7", "15"});
+      auto& a = rs["actions"][0]["args"];
+      if (rng.chance(0.6))
+        a["post_action_delay"] = std::to_string(rng.pick({0, 1, 3, 12}));
+      else
+        a.removeMember("post_action_delay");
+    }
+    plan["ticks"] = (int)rng.range(8, 20);
+    return plan;
+  }
   Json::Value plan(Json::objectValue);
   EngineGenOpts o;
   o.maxRulesets = 3;
@@ -91,7 +111,121 @@ static void checkPauseWindows() {
   }
 }
 
+// Pause windows of rulesets whose stopping action is a real kill plugin.
+static void runKillMode() {
+  KillRun kr = runHookKillPlan();
+  if (!kr.dr.ran) {
+    if (R.violations.empty())
+      violate("C05.valid-config-rejected",
+              "stage=" + kr.dr.errorStage + " " + kr.dr.error);
+    return;
+  }
+  std::map<std::string, int64_t> rsDelay; // ruleset -> seconds
+  std::map<std::string, std::string> widRuleset, detOfRuleset;
+  std::map<std::string, std::optional<int>> widDelay;
+  for (const auto& rs : R.plan["config"]["rulesets"]) {
+    std::string name = rs["name"].asString();
+    rsDelay[name] = rs.isMember("post_action_delay")
+        ? atoll(rs["post_action_delay"].asString().c_str())
+        : 15;
+    const auto& a = rs["actions"][0]["args"];
+    std::string wid = a["wid"].asString();
+    widRuleset[wid] = name;
+    if (a.isMember("post_action_delay"))
+      widDelay[wid] = atoi(a["post_action_delay"].asString().c_str());
+    else
+      widDelay[wid] = std::nullopt;
+    detOfRuleset[name] = rs["detectors"][0][1]["args"]["id"].asString();
+  }
+  std::map<std::string, int64_t> until; // wid -> pause end
+  std::map<std::string, std::string> why;
+  std::map<std::string, bool> suspended; // chain waiting (ASYNC_PAUSED)
+  // per tick: did the ruleset's detector fire, did the action run
+  std::map<std::pair<std::string, int>, bool> fired, ran;
+  std::map<std::pair<std::string, int>, int64_t> tickTime;
+  int stops = 0, pluginDelays = 0;
+  for (const auto& e : R.log) {
+    if (e.kind == "plugin" && e.a == "run" &&
+        e.extra["type"].asString() == "det") {
+      for (auto& kv : detOfRuleset)
+        if (kv.second == e.who) {
+          fired[{kv.first, e.tick}] = e.extra["ret"].asString() != "S";
+          tickTime[{kv.first, e.tick}] = e.t;
+        }
+    }
+    if (e.kind == "plugin" && e.a == "run" &&
+        e.extra["type"].asString() == "act" &&
+        e.extra["ret"].asString() == "S") {
+      // the scripted action after the kill plugin ended the chain
+      std::string rs = e.extra["ctx"]["ruleset"].asString();
+      for (auto& w : widRuleset)
+        if (w.second == rs) {
+          until[w.first] = e.t + rsDelay[rs] * 1000000000LL;
+          why[w.first] = "STOP by " + e.who + " at t=" +
+              std::to_string(e.t - R.t0_ns) + " delay=" +
+              std::to_string(rsDelay[rs]) + "s (ruleset)";
+        }
+    }
+    if (e.kind != "wrap")
+      continue;
+    const std::string& wid = e.who;
+    if (e.a == "enter") {
+      ran[{widRuleset[wid], e.tick}] = true;
+      auto it = until.find(wid);
+      if (it != until.end() && e.t < it->second) {
+        violate("C05.action-inside-pause",
+                "kill action " + wid + " of ruleset " + widRuleset[wid] +
+                    " ran " + std::to_string(it->second - e.t) +
+                    " ns before the pause ends (" + why[wid] + ")");
+        return;
+      }
+    } else if (e.a == "exit") {
+      suspended[wid] = e.b == "A";
+      if (e.b == "S") {
+        auto p = widDelay[wid];
+        int64_t d = p ? *p : rsDelay[widRuleset[wid]];
+        until[wid] = e.t + d * 1000000000LL;
+        why[wid] = "STOP at t=" + std::to_string(e.t - R.t0_ns) + " delay=" +
+            std::to_string(d) + (p ? "s (plugin)" : "s (ruleset)");
+        stops++;
+        if (p)
+          pluginDelays++;
+      }
+    }
+  }
+  // actions may run again from t+d on: a firing detector at a tick at or
+  // after the end of the pause starts the chain
+  for (auto& kv : fired) {
+    if (!kv.second)
+      continue;
+    const std::string& rs = kv.first.first;
+    std::string wid;
+    for (auto& w : widRuleset)
+      if (w.second == rs)
+        wid = w.first;
+    auto it = until.find(wid);
+    int64_t t = tickTime[kv.first];
+    // only judged after the last recorded pause has ended
+    if (it == until.end() || t < it->second)
+      continue;
+    if (!ran.count(kv.first)) {
+      violate("C05.no-action-after-pause",
+              "ruleset " + rs + " tick " + std::to_string(kv.first.second) +
+                  ": a detector group fired " + std::to_string(t - it->second) +
+                  " ns after the pause ended but the action did not run");
+      return;
+    }
+  }
+  probe("kill-stops", stops);
+  probe("kill-stops-with-plugin-delay", pluginDelays);
+  R.nontrivial = stops > 0;
+}
+
 static void runC05() {
+  if (R.plan.get("mode", "").asString() == "kill") {
+    runKillMode();
+    return;
+  }
   runEngineAndCompare("C05");
   if (R.violations.empty())
     checkPauseWindows();
